@@ -237,6 +237,12 @@ func handle(st *state, f []string) string {
 			st.logf(`{"dir":"close","j":%d,"t":%.3f}`, j, time.Since(st.t0).Seconds())
 		}
 		return `{"kind":"ok"}`
+	case "stdout":
+		st.mu.Lock()
+		defer st.mu.Unlock()
+		has := func(x string) bool { return strings.Contains(string(st.stdout), x) }
+		return fmt.Sprintf(`{"kind":"stdout","exited":%t,"code":%d,"nul":%d,"banner":%t,"testMode":%t,"trafficMode":%t,"usage":%t}`,
+			st.exited, st.exitCode, len(st.ul), has(">> All tests finished"), has("TEST MODE"), has("TRAFFIC MODE"), has("Usage: stg-utg"))
 	case "quit":
 		return `{"kind":"ok"}`
 	}
